@@ -132,7 +132,7 @@ const (
 	refusedAddr  = "127.0.0.1:1"
 	rejectDomain = "rejected.c13.test"
 	nxDomain     = "nx.c13.invalid"
-	sessionLimit = 10 * time.Second
+	sessionLimit = 20 * time.Second
 )
 
 func pskBytes() []byte {
@@ -838,7 +838,7 @@ func runScenario(sc *Scenario, ev *env) (obs Obs, err error) {
 	ts.mu.Unlock()
 
 	// the session is collected after both copy loops returned: poll for it; when none is expected look twice
-	pollEnd := time.Now().Add(3 * time.Second)
+	pollEnd := time.Now().Add(8 * time.Second)
 	for i := 0; ; i++ {
 		st, err := r.stats()
 		if err != nil {
